@@ -9,7 +9,7 @@ WT=/tmp/par/$name.wt; OUT=/tmp/par/$name.out
 rm -rf $WT $OUT; mkdir -p /tmp/par $OUT
 git -C /repo worktree add -q -f --detach $WT HEAD 2>/dev/null || { echo "$name WORKTREE_FAILED"; exit 0; }
 ( cd $WT && (git apply $D/patch.diff 2>/dev/null || git apply -3 $D/patch.diff 2>/dev/null || patch -p1 -s < $D/patch.diff >/dev/null 2>&1) ) || { echo "$name PATCH_FAILS"; git -C /repo worktree remove --force $WT; exit 0; }
-cp /verif/known-findings.json $OUT/
+cp /verif/known-findings.json $OUT/; ln -sfn /verif/checker $OUT/checker
 if [ "$P" = all ]; then props=$(python3 -c "import json;print(' '.join(c['property_id'] for c in json.load(open('/verif/MANIFEST.json'))['checks']))"); else props=$P; fi
 tot=0; rules=""
 for p in $props; do
